@@ -139,6 +139,7 @@ class Explorer:
         """harness(ctx) -> value (may raise SymRaise).  Returns list[PathResult]."""
         results = []
         self.pending = [[]]
+        self.undecided_paths = []
         n = 0
         while self.pending:
             dec = self.pending.pop()
@@ -155,6 +156,15 @@ class Explorer:
                 results.append(PathResult("done", None, ctx))
             except InfeasiblePath:
                 continue
+            except Undecided as e:
+                # this PATH left the subset: it is undecided; the other paths (and what this one had already obliged
+                # before it left the subset) are still checked -- a refutation found there is a refutation
+                if not results and not self.pending:
+                    raise  # (the only path: the whole unit is undecided, with the original traceback)
+                self.undecided_paths.append(e)
+                results.append(PathResult("undecided", None, ctx))
+        if self.undecided_paths and not any(r.kind != "undecided" for r in results):
+            raise self.undecided_paths[0]
         return results
 
 
@@ -1015,6 +1025,17 @@ class Interp:
         return list(self.comp(e.elt, e.generators, env))
 
     def ex_DictComp(self, e, env):
+        if len(e.generators) == 1 and not e.generators[0].ifs:
+            it = self.ev(e.generators[0].iter, env)
+            if hasattr(it, "pyvc_dictcomp"):
+                g = e.generators[0]
+
+                def kv_fn(item):
+                    sub = Env(env)
+                    self.assign(g.target, item, sub)
+                    return self.ev(e.key, sub), self.ev(e.value, sub)
+
+                return it.pyvc_dictcomp(self, kv_fn)
         return dict(self.comp(ast.Tuple(elts=[e.key, e.value], ctx=ast.Load()), e.generators, env))
 
     def comp(self, elt, gens, env, i=0):
